@@ -126,4 +126,6 @@ package resolver
 //@   call json.Unmarshal #2 requires [go-did-sees-the-document-only-after-the-null-entry-screen]
 //@        isNilIface(ret(call json.Unmarshal #1)) && arg(call json.Unmarshal #1, 0) == data && arg(call json.Unmarshal #1, 1) == any(&members)
 //@        && arg(0) == data && arg(1) == any(document) && $done1
+// members are selected for the screen by case-insensitive comparison and in no other way
+//@   ensures [members-are-selected-case-insensitively] did(call hasNullEntry #1) ==> did(call strings.EqualFold #1) && ret(call strings.EqualFold #1)
 //@   ensures [success-only-through-go-did] isNilIface(result) ==> did(call json.Unmarshal #2) && isNilIface(ret(call json.Unmarshal #2))
